@@ -14,7 +14,6 @@ Proof.
   - symmetry. apply leqb_false. apply leqb_false in E. congruence.
 Qed.
 
-Definition kvalid (k : list N) : Prop := Forall (fun x => x < 16) k.
 Definition is_prefix (a b : list N) : Prop := exists c, b = a ++ c.
 (* a prefix-free universe of keys (relative to the current node) *)
 Definition pfree (U : list N -> Prop) : Prop := forall a b, U a -> U b -> is_prefix a b -> a = b.
@@ -213,8 +212,6 @@ Section UPD.
     destruct KS as [KS _]. inversion KS; subst. rewrite E1, E2 in H3. discriminate.
   Qed.
 
-  Lemma kvalid_head : forall n k, kvalid (n :: k) -> n < 16 /\ kvalid k.
-  Proof. intros n k V. inversion V; subst. split; assumption. Qed.
 
   Lemma bus_ok : forall fuel lh path ver kvs U,
     (0 < fuel)%nat -> ksorted A kvs -> pfree U -> kvs_ok U fuel kvs ->
